@@ -175,6 +175,9 @@ def judge(prop, f, impl, model, spec):
                     j.viol = "unbound prefix %s accepted: %s" % (sorted(used - bound), impl)
             j.nontrivial = True
             cmp_model(j, impl, model)
+        elif f[6].startswith("nons;") and "namespace-uri" in expr:
+            # a navigator without NamespaceURL() cannot report URIs (the code falls back to the prefix)
+            cmp_model(j, impl, model)
         elif kind == "sel":
             judge_nodeset(j, f, impl, model, spec)
         else:
@@ -231,7 +234,9 @@ def judge_meta(j, f, impl, model, spec):
                 return
         j.viol = "the two sides differ (%s): %s vs %s" % (mode, a, b)
     j.nontrivial = a not in ("seq:", "cerr")
-    cmp_model(j, impl, model)
+    # the whitespace/abbreviation pairs range over arbitrary generated expressions: the model is
+    # only claimed for their parse trees and plans; value differences are observations
+    cmp_model(j, impl, model, in_fragment=(mode in ("ast", "plan") or f[0].startswith("C13")))
 
 
 def judge_iter(j, f, impl, model, spec):
